@@ -22,15 +22,15 @@ CLAIMED = {
    design="7 (C03)"),
  "C04": dict(
    text="Deductive proof, per consumer of signed artefacts (session/CLI tokens via getAuthInfoFromJWT, cookie re-signing, signed storage records), that acceptance implies: signature verifies under a published keymaster key, issuer and first audience are this server, the kind field is the one the consumer expects, nbf has passed (and exp for storage records); and that every verifier list handed to jwt.ParseSigned contains only asymmetric algorithms (map invariant with a quantifier over keys), so 'none'/HMAC can never be accepted.",
-   note=TRUST + "go-jose is a trusted contract (ParseSigned rejects unlisted algorithms; Claims returns nil only for a verifying key and then fills the destination with the signed payload). The OIDC code/access-token consumers are claimed under C12. GetSigned itself (goroutine+select) is outside the subset.",
+   note=TRUST + "go-jose is a trusted contract (ParseSigned rejects unlisted algorithms; Claims returns nil only for a verifying key and then fills the destination with the signed payload). The OIDC code/access-token consumers are claimed under C12. GetSigned is under contract with its goroutine and select modelled as an arbitrary received value.",
    design="7 (C04)"),
  "C05": dict(
    text="Deductive proof of the per-operation invariant behind the history property: every one of the nine sites that re-sign a session cookie with more factor bits is reached only when each new bit was verified in this request for the very user checkAuth established (ghost bit-set reset by checkAuth and extended by call-site ghost assignments on the VIP/Okta/TOTP/U2F/webauthn/bootstrap verifiers), the cookie that is upgraded belongs to that user, hardware-token challenges and bootstrap OTPs are consumed before the upgrade, an already accepted TOTP period is never evaluated again and is saved before acceptance is reported, expired bootstrap OTPs yield no hash; fresh session cookies are minted only for the user whose password was just accepted (password level), by the federated-login callback (federated level, named clause) or for the authenticated user's own unexpired CLI token (CLI level).",
-   note=TRUST + "Verdicts of the VIP/Okta services and of the u2f/webauthn/totp libraries are uninterpreted call results. Concurrent presentation of one-time values is C16 territory and not covered.",
+   note=TRUST + "Verdicts of the VIP/Okta services and of the u2f/webauthn/totp libraries are uninterpreted call results. Simultaneous presentation of a hardware-token challenge is covered under C16; of a bootstrap OTP (kept in the profile store, no mutex) it is not.",
    design="7 (C05)"),
  "C06": dict(
    text="Deductive proof of checkAuth against its contract: success implies the returned level intersects the endpoint's mask, the identity/level/issue time were established by a verified unexpired keymaster_auth cookie, by a keymaster-signed non-deny-listed client certificate, by an IP-restricted certificate used inside its netblocks by an automation identity whose key is not deny-listed, or by a back-end accepted password after a limiter token; non-GET requests with a foreign Origin/Referer host are refused. The signing wrappers require the ghost 'authenticated' flag that only checkAuth's success sets, and call-graph rules pin the lib/certgen signers to those wrappers.",
-   note=TRUST + "Only the certificate-issuing handlers are covered by effect preconditions so far (profile/token effects are claimed under C08 when built); TLS chain verification is trusted (crypto/tls heap invariant).",
+   note=TRUST + "Effect functions covered: certificate signing, profile load/save/delete, user listing, token management, cookie minting and upgrade, OIDC token/userinfo marshalling; TLS chain verification is trusted (crypto/tls heap invariant). A handler that performs an effect through a function not under contract would escape (the call-graph rules pin the signers and the password back end only).",
    design="7 (C06)"),
  "C07": dict(
    text="Deductive proof over the LDAP authenticator with a ghost context per attempt: while no server has answered nothing is decided or written (loop invariants over the server x bind-pattern loops); the first answer is final (returned verdict == the directory's verdict); the cache record is consulted only when no server answered, only for the same user and record type, and only its comparison with the submitted password can accept; acceptance writes the hash of the very password the directory confirmed with expiry now+expirationDuration (96 h, proved at the constructor) and is the only writer (call-graph rule); rejection evicts a cached hash that matches the rejected password. GetSigned (goroutine and select modelled as an arbitrary received value) accepts a record only if it verifies under a published keymaster key as a storage record, is unexpired and was signed for the looked-up user. checkUserPassword returns exactly the back end's verdict, and checkAuth/login establish the identity the back end accepted.",
@@ -38,7 +38,7 @@ CLAIMED = {
    design="7 (C07)"),
  "C08": dict(
    text="Deductive proof, per handler that reads or changes a profile or administers users, of the effect preconditions: LoadUserProfile/SaveUserProfile/DeleteUserProfile and the token-management handlers are reached only for the user checkAuth established, or for another user when the ghost admin flag was set by IsAdminUser for that established user and (for token changes/registrations) the established session carries the U2F bit; the user-administration and bootstrap-OTP handlers require the admin flag; automation certificates are signed only after isAutomationAdmin/IsAdminUser accepted the established user and only for a name in the configured automation lists; the admin cache returns a cached verdict only while younger than five minutes unless the directory failed.",
-   note=TRUST + "Group membership lookups (LDAP) are uninterpreted call results. The five-minute rule is proved on admincache.Cache.Get against the ghost clock. Templates rendering a profile are not modelled.",
+   note=TRUST + "Group membership lookups (getUserGroups: LDAP/gitdb) are the only assumed verdicts; _IsAdminUser (both directions) and isAutomationUser (soundness) are verified against 'configured name or member of a configured group'. The five-minute rule is proved on admincache.Cache.Get against the ghost clock. Templates rendering a profile are not modelled.",
    design="7 (C08)"),
  "C12": dict(
    text="Deductive proof over the token, authorization and userinfo handlers: tokens are marshalled only after the code verified under a keymaster key with the code kind, unexpired, same redirect URI, and the caller was authenticated as the client bound into the code by secret or (secret-less client that may use PKCE) by a verifier matching the bound challenge; the ID token carries this issuer, the code's client as the only audience, the code's subject, the code's nonce, an expiry no later than the code's 16 h bound; the access token carries that subject and the userinfo audience; userinfo answers only for a verified access token of the access kind whose audience list contains the userinfo audience, with the subject in it.",
@@ -58,11 +58,11 @@ CLAIMED = {
    design="7 (C11)"),
  "C13": dict(
    text="String-theory proof that CanRedirectToURL accepts only https, no query, no '..', a host equal to or a subdomain of a configured domain (exists-quantified over the list), a matching pattern when patterns are configured, nothing when unconfigured; the authorization handler redirects only to a prefix approved by that function (ghost state); same host rule for CORS origins.",
-   note=TRUST + "url.Parse/Hostname and regexp.MatchString are uninterpreted trusted contracts; browsers' divergent URL parsing is out of scope.",
+   note=TRUST + "url.Parse/Hostname are uninterpreted trusted contracts, operator-configured redirect patterns (non-constant regexps) are uninterpreted; browsers' divergent URL parsing is out of scope.",
    design="7 (C13)"),
  "C14": dict(
    text="Deductive proof with a linear ghost token: checkUserPassword (the only caller of the back end, by a call-graph rule) requires a token that only a true rate.Limiter.Allow() grants, at both entry points (login form and basic-auth); validateUserTOTP evaluates a code only if two seconds have passed since the user's last check and no lock-out is in force, counts failures (they accumulate while the previous failure is less than a day old), locks out for an hour at every fifth failure and resets on success.",
-   note=TRUST + "The numeric rate of the token bucket is rate.Limiter's; concurrent attempts are not covered.",
+   note=TRUST + "The numeric rate of the token bucket is rate.Limiter's; the TOTP gate is judged inside one critical section (lock-aware clauses shared with C16), other interleavings are not explored.",
    design="7 (C14)"),
  "C16": dict(
    text="Deductive lock-set proof: every read and write of the shared session/challenge maps (localAuthData, vipPushCookie, pendingOauth2 under state.Mutex; totpLocalRateLimit under its own mutex; the Okta session cache under its mutex) and of their contents happens with the protecting mutex held (one obligation per access, in every function of /repo that touches them, found by a sweep over go/ssa); taking a mutex forgets what was known about the state it protects, so check-then-act sequences are proved only inside one critical section: the TOTP two-second gate is tested and published in the critical section entered last before a code is evaluated, and a hardware-token challenge is taken out of the shared map in the critical section that reads it, before the answer is verified (so a second presentation, however interleaved, finds none).",
